@@ -8,7 +8,23 @@
      apply_sat_eq           p_half p < mask64 -> p_full p < mask64 -> pos_eq (apply_sat p m) (Rules.apply p m)
      apply_move_factored    apply_move = board2 ; board4 ; state_after
      enc_plain / enc_ep / enc_castle     the value of enc_move in the three shapes
-     apply_refines_sat, apply_refines, absm_enc_move, legal_pos_rights_ok *)
+     ep_flag p k f t / castle_flag k f t the two shape tests of Rules.apply; move_shape: case split
+     repr_move_piece / repr_replace / repr_relocate      board steps of apply_move as square-map updates
+     apply_at_plain / apply_at_ep / apply_at_castle      p_at (Rules.apply p mv) in the three shapes
+     rights_match, finish                the rights / counters / e.p. target part, shared by the shapes
+     ep_clause / rights_clause / pawns_clause / legal_pos_unfold / legal_pos_parts
+                                         Rules.legal_pos split into its six conjuncts (use these, not
+                                         "unfold legal_pos in H; apply ... in H": the kernel re-check of
+                                         such a step at Qed time does not terminate in practice)
+   MAIN THEOREMS (end of file)
+     apply_refines_sat : forall s mv, WfState s -> rights_ok s -> move_ok s mv ->
+        exists s', apply_move s (enc_move s mv) = Some s' /\ WfState s' /\
+                   pos_eq (abs s') (apply_sat (abs s) mv)
+     apply_refines : forall s mv, WfState s -> clock_ok s -> rights_ok s -> move_ok s mv ->
+        exists s', apply_move s (enc_move s mv) = Some s' /\ WfState s' /\
+                   pos_eq (abs s') (Rules.apply (abs s) mv)
+     apply_refines_unique (the same for a given successor), absm_enc_move : move_ok s mv ->
+        absm (enc_move s mv) = mv, legal_pos_rights_ok : LegalPos s -> rights_ok s *)
 From WV Require Import Types Bits Attacks Board MoveEnc MoveGen Rules Abs Wf Encode.
 From WV Require Import BitsProofs BoardProofs MoveEncProofs PosEq BoardAlg.
 From Coq Require Import Lia ZifyBool ZifyN ZifyNat.
@@ -260,3 +276,589 @@ Proof.
     apply sq_eq_coords; destruct (st_turn s); cbn [back_rank] in *;
       unfold sfile, srank, sq_of in *; lia.
 Qed.
+
+(* ====================================================================== *)
+(* boards                                                                 *)
+(* ====================================================================== *)
+
+Lemma opp_of_neq : forall c c', c' <> c -> c' = opp c.
+Proof. intros [|] [|] H; try reflexivity; exfalso; apply H; reflexivity. Qed.
+
+Lemma slot_opp_neq : forall (c : color) (k x : piece), (c, k) <> (opp c, x).
+Proof. intros [|] k x H; discriminate H. Qed.
+
+(* the mover goes from f to t, the enemy occupant of t (if any) is removed, in the model's order *)
+Lemma repr_move_piece : forall b c k f t, WfBoard b -> piece_at b f = Some (c, k) -> t < 64 -> f <> t ->
+  (forall k', piece_at b t <> Some (c, k')) ->
+  Repr (match kind_on b t with
+        | Some x => pset_bit (pset_bit (pset_bit b c k f false) c k t true) (opp c) x t false
+        | None => pset_bit (pset_bit b c k f false) c k t true
+        end)
+       (upd (upd (piece_at b) f None) t (Some (c, k))).
+Proof.
+  intros b c k f t Hwf Hf Ht Hne Hown.
+  pose proof (piece_at_some_imp _ _ _ _ Hf) as [Hk _].
+  pose proof (repr_clear b _ c k f (repr_self b Hwf) Hf) as R1.
+  assert (Etf : (t =? f) = false) by (apply N.eqb_neq; intros E; apply Hne; symmetry; exact E).
+  unfold kind_on. destruct (piece_at b t) as [[c' x]|] eqn:Et.
+  - assert (Hc' : c' = opp c).
+    { apply opp_of_neq. intros ->. exact (Hown x eq_refl). }
+    subst c'. rewrite (pset_bit_comm _ c k t true (opp c) x t false (slot_opp_neq c k x)).
+    assert (H1 : upd (piece_at b) f None t = Some (opp c, x)) by (unfold upd; rewrite Etf; exact Et).
+    pose proof (repr_clear _ _ (opp c) x t R1 H1) as R2.
+    assert (H2 : upd (upd (piece_at b) f None) t None t = None) by (unfold upd; rewrite N.eqb_refl; reflexivity).
+    pose proof (repr_set _ _ c k t R2 H2 Ht Hk) as R3.
+    apply (repr_ext _ _ _ R3). intros y. unfold upd. destruct (y =? t); reflexivity.
+  - assert (H1 : upd (piece_at b) f None t = None) by (unfold upd; rewrite Etf; exact Et).
+    exact (repr_set _ _ c k t R1 H1 Ht Hk).
+Qed.
+
+Lemma repr_replace : forall b g c k pr t, Repr b g -> g t = Some (c, k) -> t < 64 -> pr <> PNone ->
+  Repr (pset_bit (pset_bit b c k t false) c pr t true) (upd g t (Some (c, pr))).
+Proof.
+  intros b g c k pr t R Hg Ht Hpr.
+  pose proof (repr_clear _ _ c k t R Hg) as R1.
+  assert (H1 : upd g t None t = None) by (unfold upd; rewrite N.eqb_refl; reflexivity).
+  pose proof (repr_set _ _ c pr t R1 H1 Ht Hpr) as R2.
+  apply (repr_ext _ _ _ R2). intros y. unfold upd. destruct (y =? t); reflexivity.
+Qed.
+
+Lemma repr_relocate : forall b g c k a a', Repr b g -> g a = Some (c, k) -> g a' = None -> a' < 64 ->
+  Repr (pset_bit (pset_bit b c k a false) c k a' true) (upd (upd g a None) a' (Some (c, k))).
+Proof.
+  intros b g c k a a' R Ha Ha' Hlt.
+  pose proof (repr_clear _ _ c k a R Ha) as R1.
+  assert (Hk : k <> PNone).
+  { destruct R as [Hw Hg]. rewrite <- Hg in Ha. apply piece_at_some_imp in Ha. apply Ha. }
+  assert (H1 : upd g a None a' = None).
+  { unfold upd. destruct (a' =? a); [reflexivity | exact Ha']. }
+  exact (repr_set _ _ c k a' R1 H1 Hlt Hk).
+Qed.
+
+(* ====================================================================== *)
+(* the placement after Rules.apply, in the three shapes                   *)
+(* ====================================================================== *)
+
+Definition placed_kind (k : piece) (pr : option piece) : piece :=
+  match pr with Some k' => k' | None => k end.
+
+Lemma apply_at_plain : forall p mv c0 k x, p_at p (mv_from mv) = Some (c0, k) ->
+  ep_flag p k (mv_from mv) (mv_to mv) = false -> castle_flag k (mv_from mv) (mv_to mv) = false ->
+  p_at (Rules.apply p mv) x =
+  upd (upd (p_at p) (mv_from mv) None) (mv_to mv) (Some (p_turn p, placed_kind k (mv_promo mv))) x.
+Proof.
+  intros p mv c0 k x Hf Hep Hca. unfold Rules.apply. cbn [p_at]. rewrite Hf.
+  unfold ep_flag in Hep. unfold castle_flag in Hca. rewrite Hep, Hca. cbn [andb].
+  unfold upd, placed_kind. reflexivity.
+Qed.
+
+Lemma apply_at_ep : forall p mv c0 x, p_at p (mv_from mv) = Some (c0, Pawn) ->
+  ep_flag p Pawn (mv_from mv) (mv_to mv) = true ->
+  p_at (Rules.apply p mv) x =
+  if x =? mv_to mv then Some (p_turn p, placed_kind Pawn (mv_promo mv))
+  else if x =? mv_from mv then None
+  else if x =? sq_of (sfile (mv_to mv)) (srank (mv_from mv)) then None
+  else p_at p x.
+Proof.
+  intros p mv c0 x Hf Hep. unfold Rules.apply. cbn [p_at]. rewrite Hf.
+  unfold ep_flag in Hep. rewrite Hep.
+  change (piece_eqb Pawn King) with false. cbn [andb]. reflexivity.
+Qed.
+
+Lemma apply_at_castle : forall p mv c0 x, p_at p (mv_from mv) = Some (c0, King) ->
+  castle_flag King (mv_from mv) (mv_to mv) = true ->
+  p_at (Rules.apply p mv) x =
+  if x =? mv_to mv then Some (p_turn p, placed_kind King (mv_promo mv))
+  else if x =? mv_from mv then None
+  else if x =? rook_home (p_turn p) (sfile (mv_to mv) =? 6)%Z then None
+  else if x =? sq_of (if (sfile (mv_to mv) =? 6)%Z then 5 else 3) (back_rank (p_turn p)) then Some (p_turn p, Rook)
+  else p_at p x.
+Proof.
+  intros p mv c0 x Hf Hca. unfold Rules.apply. cbn [p_at]. rewrite Hf.
+  unfold castle_flag in Hca. rewrite Hca.
+  change (piece_eqb King Pawn) with false. cbn [andb]. reflexivity.
+Qed.
+
+
+(* ====================================================================== *)
+(* castling rights                                                        *)
+(* ====================================================================== *)
+
+Lemma has_p_at : forall p s c k, has p s c k = true -> p_at p s = Some (c, k).
+Proof. intros p s c k H. apply has_iff. exact H. Qed.
+
+Lemma corner_facts : forall c c0 side side', c <> c0 ->
+  (rook_home c0 side =? rook_home c side') = false /\
+  (rook_home c0 side =? sq_of (if side' then 5 else 3) (back_rank c)) = false.
+Proof.
+  intros [|] [|] [|] [|] H; try (exfalso; apply H; reflexivity); split; reflexivity.
+Qed.
+
+Lemma rights_match : forall s mv k b4, rights_ok s -> move_ok_k s mv k ->
+  Repr b4 (p_at (Rules.apply (abs s) mv)) ->
+  forall c0 side,
+  (if piece_eqb k King && color_eqb (st_turn s) c0 then false else castle_right s c0 side)
+    && test (pocc b4 c0 Rook) (rook_home c0 side)
+  = p_right (Rules.apply (abs s) mv) c0 side.
+Proof.
+  intros s mv k b4 Hro (Hf & Hf64 & Ht64 & Hne & Hown & Hpro & Hpawn & Hking) R c0 side.
+  rewrite (test_repr_b b4 _ c0 Rook (rook_home c0 side) R) by discriminate.
+  set (rh := rook_home c0 side).
+  unfold Rules.apply at 2. cbn [p_right]. rewrite Hf.
+  change (p_turn (abs s)) with (st_turn s). change (p_right (abs s)) with (castle_right s).
+  destruct (castle_right s c0 side) eqn:Er;
+    [|destruct (piece_eqb k King && color_eqb (st_turn s) c0); reflexivity].
+  destruct (Hro c0 side Er) as [Hkh Hrh]. apply has_p_at in Hkh. apply has_p_at in Hrh. fold rh in Hrh.
+  destruct (piece_eqb k King && color_eqb (st_turn s) c0) eqn:Ekm; [reflexivity|].
+  cbn [andb negb].
+  (* the new occupant of the corner *)
+  unfold Rules.apply. cbn [p_at]. rewrite Hf. change (p_turn (abs s)) with (st_turn s).
+  fold rh. rewrite (N.eqb_sym (mv_from mv) rh), (N.eqb_sym (mv_to mv) rh).
+  destruct (N.eqb_spec rh (mv_to mv)) as [Et|Et].
+  { (* something landed on the corner: it is an enemy piece *)
+    rewrite andb_false_r.
+    assert (Hc : color_eqb c0 (st_turn s) = false).
+    { destruct (color_eqb c0 (st_turn s)) eqn:E; [|reflexivity]. apply color_eqb_eq in E. subst c0.
+      unfold colour_at in Hown. rewrite <- Et, Hrh, color_eqb_refl in Hown. discriminate Hown. }
+    unfold slot_eqb. rewrite Hc. reflexivity. }
+  destruct (N.eqb_spec rh (mv_from mv)) as [Ef|Ef]; [reflexivity|].
+  cbn [negb andb].
+  (* not the e.p. victim *)
+  assert (Hnv : (piece_eqb k Pawn && negb (sfile (mv_from mv) =? sfile (mv_to mv))%Z && empty_at (abs s) (mv_to mv)
+                 && (rh =? sq_of (sfile (mv_to mv)) (srank (mv_from mv)))) = false).
+  { destruct (piece_eqb k Pawn) eqn:Ep; [|reflexivity]. apply piece_eqb_eq in Ep.
+    destruct (negb (sfile (mv_from mv) =? sfile (mv_to mv))%Z) eqn:Efl; [|reflexivity].
+    destruct (empty_at (abs s) (mv_to mv)) eqn:Eem; [|reflexivity].
+    destruct (N.eqb_spec rh (sq_of (sfile (mv_to mv)) (srank (mv_from mv)))) as [Ev|Ev]; [|reflexivity].
+    exfalso. destruct (Hpawn Ep) as [_ Hep].
+    assert (Hfl : sfile (mv_to mv) <> sfile (mv_from mv)).
+    { apply negb_true_iff in Efl. apply Z.eqb_neq in Efl. intros E. apply Efl. symmetry. exact E. }
+    destruct (Hep Hfl eq_refl) as (_ & _ & Hv & _). apply has_p_at in Hv. rewrite <- Ev, Hrh in Hv.
+    discriminate Hv. }
+  rewrite Hnv.
+  (* not touched by a castling move of the other side *)
+  destruct (piece_eqb k King && (Z.abs (sfile (mv_to mv) - sfile (mv_from mv)) =? 2)%Z) eqn:Eca.
+  - assert (Hcc : st_turn s <> c0).
+    { intros E. apply andb_true_iff in Eca. destruct Eca as [Ek _]. rewrite Ek in Ekm.
+      rewrite E, color_eqb_refl in Ekm. discriminate Ekm. }
+    destruct (corner_facts (st_turn s) c0 side (sfile (mv_to mv) =? 6)%Z Hcc) as [E1 E2].
+    fold rh in E1, E2. rewrite E1, E2, Hrh. apply slot_eqb_refl.
+  - rewrite Hrh. apply slot_eqb_refl.
+Qed.
+
+
+Lemma sat_add1_lt : forall n, n < two64 -> sat_add1 n < two64.
+Proof.
+  intros n H. unfold sat_add1. destruct (N.eqb_spec n mask64) as [E|E]; [exact H|].
+  unfold two64, mask64 in *. lia.
+Qed.
+
+(* the en-passant target after a double step *)
+Lemma double_target : forall c f t, f < 64 -> t < 64 ->
+  sfile t = sfile f -> (srank t = srank f + 2 * fwd c)%Z ->
+  offset t 0 (backward_dr c) = Some (sq_of (sfile f) (srank f + fwd c)).
+Proof.
+  intros c f t Hf Ht Hfile Hrank. apply offset_spec; [exact Ht|].
+  unfold sfile, srank, sq_of in *. destruct c; cbn [fwd backward_dr] in *; lia.
+Qed.
+
+Lemma finish : forall s mv k b4 iscap dbl,
+  WfState s -> rights_ok s -> move_ok_k s mv k ->
+  Repr b4 (p_at (Rules.apply (abs s) mv)) ->
+  dbl = piece_eqb k Pawn && (1 <? abs_dist (rank_of (mv_from mv)) (rank_of (mv_to mv))) ->
+  iscap || piece_eqb k Pawn = piece_eqb k Pawn || negb (empty_at (abs s) (mv_to mv)) ->
+  WfState (state_after s b4 k (mv_to mv) iscap dbl) /\
+  pos_eq (abs (state_after s b4 k (mv_to mv) iscap dbl)) (apply_sat (abs s) mv).
+Proof.
+  intros s mv k b4 iscap dbl Hwf Hro Hok R Hdbl Hcap.
+  pose proof Hok as (Hf & Hf64 & Ht64 & Hne & Hown & Hpro & Hpawn & Hking).
+  unfold WfState, wf_stateb in Hwf. rewrite !andb_true_iff in Hwf.
+  destruct Hwf as [[[Hwb Hwep] Hwh] Hwfl]. apply N.ltb_lt in Hwh. apply N.ltb_lt in Hwfl.
+  (* the double-step flag against the rules *)
+  assert (Hd : (if dbl then offset (mv_to mv) 0 (backward_dr (st_turn s)) else None) =
+               p_ep (Rules.apply (abs s) mv)).
+  { unfold Rules.apply. cbn [p_ep]. rewrite Hf. change (p_turn (abs s)) with (st_turn s).
+    subst dbl. destruct (piece_eqb k Pawn) eqn:Ep; [|reflexivity]. cbn [andb].
+    apply piece_eqb_eq in Ep. destruct (Hpawn Ep) as [Hlong _].
+    pose proof (abs_dist_Z (rank_of (mv_from mv)) (rank_of (mv_to mv))) as Had.
+    rewrite <- !srank_rank in Had.
+    destruct (N.ltb_spec 1 (abs_dist (rank_of (mv_from mv)) (rank_of (mv_to mv)))) as [Hl|Hl].
+    - destruct Hlong as [Hlong|[Hfile Hrank]]; [lia|].
+      replace (Z.abs (srank (mv_to mv) - srank (mv_from mv)) =? 2)%Z with true
+        by (destruct (st_turn s); cbn [fwd] in Hrank; lia).
+      apply double_target; assumption.
+    - replace (Z.abs (srank (mv_to mv) - srank (mv_from mv)) =? 2)%Z with false by lia.
+      reflexivity. }
+  split.
+  - (* WfState *)
+    unfold WfState, wf_stateb, state_after.
+    cbn [st_board st_ep st_half st_full]. rewrite !andb_true_iff. repeat split.
+    + exact (proj1 R).
+    + destruct dbl; [|reflexivity].
+      destruct (offset (mv_to mv) 0 (backward_dr (st_turn s))) as [e|] eqn:Eo; [|reflexivity].
+      apply N.ltb_lt. exact (offset_lt _ _ _ _ Ht64 Eo).
+    + apply N.ltb_lt. destruct (iscap || piece_eqb k Pawn); [reflexivity | apply sat_add1_lt; exact Hwh].
+    + apply N.ltb_lt. destruct (st_turn s); [exact Hwfl | apply sat_add1_lt; exact Hwfl].
+  - unfold pos_eq, apply_sat. cbn [p_at p_turn p_right p_ep p_half p_full].
+    split; [|split; [|split; [|split; [|split]]]].
+    + intros x. cbn [abs p_at state_after st_board]. apply (proj2 R).
+    + reflexivity.
+    + intros c0 side. rewrite <- (rights_match s mv k b4 Hro Hok R c0 side).
+      destruct c0, side; cbn [abs p_right castle_right state_after st_wk st_wq st_bk st_bq rook_home];
+        destruct (st_turn s); destruct (piece_eqb k King); reflexivity.
+    + cbn [abs p_ep state_after st_ep]. exact Hd.
+    + cbn [abs p_half state_after st_half]. unfold resets_clock. rewrite Hf, Hcap. reflexivity.
+    + cbn [abs p_full p_turn state_after st_full]. reflexivity.
+Qed.
+
+
+Lemma not_own_of_colour_at : forall s t c, colour_at (abs s) t c = false ->
+  forall k', piece_at (st_board s) t <> Some (c, k').
+Proof.
+  intros s t c H k' E. unfold colour_at in H. cbn [abs p_at] in H. rewrite E, color_eqb_refl in H.
+  discriminate H.
+Qed.
+
+Lemma move_ok_kind : forall s mv k, move_ok_k s mv k -> k <> PNone.
+Proof.
+  intros s mv k (Hf & _). cbn [abs p_at] in Hf. apply piece_at_some_imp in Hf. apply Hf.
+Qed.
+
+Lemma wf_state_board : forall s, WfState s -> WfBoard (st_board s).
+Proof.
+  intros s H. unfold WfState, wf_stateb in H. rewrite !andb_true_iff in H. apply H.
+Qed.
+
+Lemma kind_on_not_none : forall b t, kind_on b t <> Some PNone.
+Proof.
+  intros b t. unfold kind_on. destruct (piece_at b t) as [[c k]|] eqn:E; [|discriminate].
+  apply piece_at_some_imp in E. intros H. injection H as H. apply (proj1 E). exact H.
+Qed.
+
+Lemma promo_not_none : forall pr, is_promo_kind pr = true -> pr <> PNone.
+Proof. intros pr H ->. discriminate H. Qed.
+
+(* ---------------------------------------------------------------------- *)
+(* ordinary moves, captures, promotions                                   *)
+(* ---------------------------------------------------------------------- *)
+
+Lemma refines_plain : forall s mv k, WfState s -> rights_ok s -> move_ok_k s mv k ->
+  ep_flag (abs s) k (mv_from mv) (mv_to mv) = false -> castle_flag k (mv_from mv) (mv_to mv) = false ->
+  exists s', apply_move s (enc_move s mv) = Some s' /\ WfState s' /\
+             pos_eq (abs s') (apply_sat (abs s) mv).
+Proof.
+  intros s mv k Hwf Hro Hok Hep Hca.
+  pose proof Hok as (Hf & Hf64 & Ht64 & Hne & Hown & Hpro & Hpawn & Hking).
+  pose proof (move_ok_kind _ _ _ Hok) as Hk.
+  rewrite (enc_plain s mv k Hok Hep Hca), apply_move_factored.
+  assert (Hpn : mv_promo mv <> Some PNone).
+  { destruct (mv_promo mv) as [pr|]; [|discriminate]. intros E. injection E as ->.
+    destruct Hpro as [_ Hpro]. discriminate Hpro. }
+  destruct (roundtrip (st_turn s) k (mv_from mv) (mv_to mv) (kind_on (st_board s) (mv_to mv))
+              (mv_promo mv) Hk Hf64 Ht64 (kind_on_not_none _ _) Hpn)
+    as (E1 & _ & E3 & E4 & E5 & E6 & E7 & E8 & E9 & _).
+  unfold m_is_capture. rewrite E1, E3, E4, E5, E6, E7, E8, E9. clear E1 E3 E4 E5 E6 E7 E8 E9.
+  set (b := st_board s). set (c := st_turn s). set (f := mv_from mv). set (t := mv_to mv).
+  pose proof (repr_move_piece b c k f t (wf_state_board s Hwf) Hf Ht64 Hne
+                (not_own_of_colour_at s t c Hown)) as R2.
+  set (b2 := match kind_on b t with
+             | Some x => pset_bit (pset_bit (pset_bit b c k f false) c k t true) (opp c) x t false
+             | None => pset_bit (pset_bit b c k f false) c k t true end) in R2.
+  assert (Eb2 : board2 s k f t (kind_on b t) false = Some b2).
+  { unfold board2, b2. fold b c. destruct (kind_on b t); reflexivity. }
+  rewrite Eb2.
+  assert (R4 : Repr (board4 c k f t (mv_promo mv) None b2) (p_at (Rules.apply (abs s) mv))).
+  { unfold board4. cbv beta iota zeta.
+    destruct (mv_promo mv) as [pr|] eqn:Epr.
+    - destruct Hpro as [_ Hpro].
+      assert (G : upd (upd (piece_at b) f None) t (Some (c, k)) t = Some (c, k))
+        by (unfold upd; rewrite N.eqb_refl; reflexivity).
+      pose proof (repr_replace _ _ c k pr t R2 G Ht64 (promo_not_none pr Hpro)) as R3.
+      apply (repr_ext _ _ _ R3). intros x.
+      rewrite (apply_at_plain (abs s) mv c k x Hf Hep Hca). fold f t. rewrite Epr.
+      unfold upd, placed_kind. destruct (x =? t); reflexivity.
+    - apply (repr_ext _ _ _ R2). intros x.
+      rewrite (apply_at_plain (abs s) mv c k x Hf Hep Hca). fold f t. rewrite Epr. reflexivity. }
+  eexists. split; [reflexivity|].
+  apply (finish s mv k _ _ _ Hwf Hro Hok R4); [reflexivity|].
+  fold b t. rewrite <- kind_on_empty. fold b. destruct (kind_on b t); destruct (piece_eqb k Pawn); reflexivity.
+Qed.
+
+
+Lemma ep_is_double : forall c o d,
+  m_is_double (by_en_passant c Pawn o d) = piece_eqb Pawn Pawn && (1 <? abs_dist (rank_of o) (rank_of d)).
+Proof.
+  intros c o d. unfold m_is_double, by_en_passant, set_capture.
+  rewrite bit_store_other by reflexivity. rewrite bit_set_bit_other by reflexivity.
+  rewrite <- build_by_moving. apply build_is_double.
+Qed.
+
+Lemma ep_victim_sq : forall c f t, f < 64 -> t < 64 -> (srank t = srank f + fwd c)%Z ->
+  offset t 0 (backward_dr c) = Some (sq_of (sfile t) (srank f)).
+Proof.
+  intros c f t Hf Ht Hrank. apply offset_spec; [exact Ht|].
+  unfold sfile, srank, sq_of in *. destruct c; cbn [fwd backward_dr] in *; lia.
+Qed.
+
+Lemma refines_ep : forall s mv, WfState s -> rights_ok s -> move_ok_k s mv Pawn ->
+  ep_flag (abs s) Pawn (mv_from mv) (mv_to mv) = true ->
+  exists s', apply_move s (enc_move s mv) = Some s' /\ WfState s' /\
+             pos_eq (abs s') (apply_sat (abs s) mv).
+Proof.
+  intros s mv Hwf Hro Hok Hep.
+  pose proof Hok as (Hf & Hf64 & Ht64 & Hne & Hown & Hpro & Hpawn & Hking).
+  rewrite (enc_ep s mv Hok Hep), apply_move_factored.
+  destruct (en_passant_fields (st_turn s) (mv_from mv) (mv_to mv) Hf64 Ht64)
+    as (E1 & _ & E3 & E4 & E5 & E6 & E7 & E8).
+  unfold m_is_capture. rewrite E1, E3, E4, E5, E6, E7, E8, ep_is_double. clear E1 E3 E4 E5 E6 E7 E8.
+  pose proof Hep as Hep'. unfold ep_flag in Hep'. change (piece_eqb Pawn Pawn) with true in Hep'.
+  cbn [andb] in Hep'. apply andb_true_iff in Hep'. destruct Hep' as [Hfl Hem].
+  apply negb_true_iff in Hfl. apply Z.eqb_neq in Hfl.
+  assert (Hfl' : sfile (mv_to mv) <> sfile (mv_from mv)) by (intros E; apply Hfl; symmetry; exact E).
+  destruct (proj2 (Hpawn eq_refl) Hfl' Hem) as (Hst & Hrank & Hvic & Hnp).
+  set (b := st_board s) in *. set (c := st_turn s) in *. set (f := mv_from mv) in *. set (t := mv_to mv) in *.
+  set (cs := sq_of (sfile t) (srank f)) in *.
+  assert (Hkt : kind_on b t = None).
+  { pose proof (kind_on_empty s t) as E. fold b in E. rewrite Hem in E.
+    destruct (kind_on b t); [discriminate E | reflexivity]. }
+  pose proof (repr_move_piece b c Pawn f t (wf_state_board s Hwf) Hf Ht64 Hne
+                (not_own_of_colour_at s t c Hown)) as R1.
+  rewrite Hkt in R1.
+  assert (Ecs_t : (cs =? t) = false).
+  { apply N.eqb_neq. intros E. assert (Hr : srank cs = srank t) by (rewrite E; reflexivity).
+    unfold cs, srank, sfile, sq_of in Hr, Hrank. destruct c; cbn [fwd] in Hrank; lia. }
+  assert (Ecs_f : (cs =? f) = false).
+  { apply N.eqb_neq. intros E. assert (Hr : sfile cs = sfile f) by (rewrite E; reflexivity).
+    unfold cs, srank, sfile, sq_of in Hr, Hfl'. lia. }
+  assert (G : upd (upd (piece_at b) f None) t (Some (c, Pawn)) cs = Some (opp c, Pawn)).
+  { unfold upd. rewrite Ecs_t, Ecs_f. apply has_p_at in Hvic. exact Hvic. }
+  pose proof (repr_clear _ _ (opp c) Pawn cs R1 G) as R2.
+  assert (Eb2 : board2 s Pawn f t (Some Pawn) true =
+                Some (pset_bit (pset_bit (pset_bit b c Pawn f false) c Pawn t true) (opp c) Pawn cs false)).
+  { unfold board2. fold b c. rewrite Hst, (ep_victim_sq c f t Hf64 Ht64 Hrank). reflexivity. }
+  rewrite Eb2.
+  assert (R4 : Repr (board4 c Pawn f t None None
+                       (pset_bit (pset_bit (pset_bit b c Pawn f false) c Pawn t true) (opp c) Pawn cs false))
+                    (p_at (Rules.apply (abs s) mv))).
+  { unfold board4. cbv beta iota zeta. apply (repr_ext _ _ _ R2). intros x.
+    rewrite (apply_at_ep (abs s) mv c x Hf Hep). fold f t cs. rewrite Hnp. unfold upd, placed_kind.
+    change (p_turn (abs s)) with c. change (p_at (abs s)) with (piece_at b).
+    destruct (N.eqb_spec x cs) as [->|Hx].
+    - rewrite Ecs_t, Ecs_f. reflexivity.
+    - reflexivity. }
+  eexists. split; [reflexivity|].
+  apply (finish s mv Pawn _ _ _ Hwf Hro Hok R4); reflexivity.
+Qed.
+
+
+Lemma castle_squares : forall c side,
+  let f := king_home c in
+  let t := castle_dest c side in
+  let rh := rook_home c side in
+  let rt := sq_of (if side then 5 else 3) (back_rank c) in
+  (mk_square (rank_of f) (if side then 7 else 0) = rh) /\
+  (mk_square (rank_of f) (if side then 5 else 3) = rt) /\
+  rt < 64 /\
+  (rh =? t) = false /\ (rh =? f) = false /\ (rt =? t) = false /\ (rt =? f) = false /\ (rt =? rh) = false /\
+  (sfile t =? 6)%Z = side.
+Proof. intros [|] [|]; vm_compute; repeat split; reflexivity. Qed.
+
+Lemma refines_castle : forall s mv, WfState s -> rights_ok s -> move_ok_k s mv King ->
+  castle_flag King (mv_from mv) (mv_to mv) = true ->
+  exists s', apply_move s (enc_move s mv) = Some s' /\ WfState s' /\
+             pos_eq (abs s') (apply_sat (abs s) mv).
+Proof.
+  intros s mv Hwf Hro Hok Hca.
+  pose proof Hok as (Hf & Hf64 & Ht64 & Hne & Hown & Hpro & Hpawn & Hking).
+  destruct (enc_castle s mv Hok Hca) as (Henc & Hfo & Hto).
+  rewrite Henc, apply_move_factored.
+  destruct (castle_fields (st_turn s) (sfile (mv_to mv) =? 6)%Z)
+    as (E1 & _ & E3 & E4 & E5 & E6 & E7 & E8 & E9).
+  unfold m_is_capture. rewrite E1, E3, E4, E5, E6, E7, E8, E9. clear E1 E3 E4 E5 E6 E7 E8 E9.
+  rewrite <- Hfo, <- Hto.
+  pose proof Hca as Hca'. unfold castle_flag in Hca'. change (piece_eqb King King) with true in Hca'.
+  cbn [andb] in Hca'. apply Z.eqb_eq in Hca'.
+  destruct (Hking eq_refl Hca') as (Hhome & Hrank & Hrook & Hem & Hem2).
+  assert (Hnp : mv_promo mv = None).
+  { destruct (mv_promo mv) as [pr|]; [|reflexivity]. destruct Hpro as [Hpro _]. discriminate Hpro. }
+  set (b := st_board s) in *. set (c := st_turn s) in *. set (f := mv_from mv) in *. set (t := mv_to mv) in *.
+  set (side := (sfile t =? 6)%Z) in *.
+  rewrite king_origin_home in Hfo.
+  destruct (castle_squares c side) as (Q1 & Q2 & Q3 & Q4 & Q5 & Q6 & Q7 & Q8 & Q9).
+  rewrite <- Hfo in Q1, Q2, Q5, Q7. rewrite <- Hto in Q4, Q6.
+  set (rh := rook_home c side) in *. set (rt := sq_of (if side then 5 else 3)%Z (back_rank c)) in *.
+  assert (Hkt : kind_on b t = None).
+  { pose proof (kind_on_empty s t) as E. fold b in E. rewrite Hem in E.
+    destruct (kind_on b t); [discriminate E | reflexivity]. }
+  pose proof (repr_move_piece b c King f t (wf_state_board s Hwf) Hf Ht64 Hne
+                (not_own_of_colour_at s t c Hown)) as R1.
+  rewrite Hkt in R1.
+  assert (Eb2 : board2 s King f t None false = Some (pset_bit (pset_bit b c King f false) c King t true))
+    by reflexivity.
+  rewrite Eb2.
+  assert (G1 : upd (upd (piece_at b) f None) t (Some (c, King)) rh = Some (c, Rook)).
+  { unfold upd. rewrite Q4, Q5. apply has_p_at in Hrook. exact Hrook. }
+  assert (G2 : upd (upd (piece_at b) f None) t (Some (c, King)) rt = None).
+  { unfold upd. rewrite Q6, Q7. unfold empty_at in Hem2. fold rt in Hem2.
+    change (p_at (abs s)) with (piece_at b) in Hem2.
+    destruct (piece_at b rt); [discriminate Hem2 | reflexivity]. }
+  pose proof (repr_relocate _ _ c Rook rh rt R1 G1 G2 Q3) as R3.
+  assert (R4 : Repr (board4 c King f t None (Some side) (pset_bit (pset_bit b c King f false) c King t true))
+                    (p_at (Rules.apply (abs s) mv))).
+  { assert (Eb4 : board4 c King f t None (Some side) (pset_bit (pset_bit b c King f false) c King t true) =
+                  pset_bit (pset_bit (pset_bit (pset_bit b c King f false) c King t true) c Rook rh false)
+                           c Rook rt true).
+    { unfold board4. cbv beta iota zeta. rewrite <- Q1, <- Q2. destruct side; reflexivity. }
+    rewrite Eb4. apply (repr_ext _ _ _ R3). intros x.
+    rewrite (apply_at_castle (abs s) mv c x Hf Hca). fold f t side. rewrite Hnp.
+    change (p_turn (abs s)) with c. change (p_at (abs s)) with (piece_at b). fold rh rt.
+    unfold upd, placed_kind.
+    destruct (N.eqb_spec x rt) as [->|Hx1].
+    - rewrite Q6, Q7, Q8. reflexivity.
+    - destruct (N.eqb_spec x rh) as [->|Hx2].
+      + rewrite Q4, Q5. reflexivity.
+      + reflexivity. }
+  eexists. split; [reflexivity|].
+  apply (finish s mv King _ _ _ Hwf Hro Hok R4); [reflexivity|].
+  fold t. rewrite Hem. reflexivity.
+Qed.
+
+
+(* ====================================================================== *)
+(* MAIN THEOREMS                                                          *)
+(* ====================================================================== *)
+
+Lemma move_shape : forall s mv k, move_ok_k s mv k ->
+  (k = Pawn /\ ep_flag (abs s) k (mv_from mv) (mv_to mv) = true) \/
+  (k = King /\ ep_flag (abs s) k (mv_from mv) (mv_to mv) = false /\ castle_flag k (mv_from mv) (mv_to mv) = true) \/
+  (ep_flag (abs s) k (mv_from mv) (mv_to mv) = false /\ castle_flag k (mv_from mv) (mv_to mv) = false).
+Proof.
+  intros s mv k Hok.
+  destruct (ep_flag (abs s) k (mv_from mv) (mv_to mv)) eqn:Eep.
+  - left. split; [|reflexivity]. unfold ep_flag in Eep. rewrite !andb_true_iff in Eep.
+    apply piece_eqb_eq. apply Eep.
+  - right. destruct (castle_flag k (mv_from mv) (mv_to mv)) eqn:Eca.
+    + left. split; [|split; reflexivity]. unfold castle_flag in Eca. rewrite andb_true_iff in Eca.
+      apply piece_eqb_eq. apply Eca.
+    + right. split; reflexivity.
+Qed.
+
+Theorem apply_refines_sat : forall s mv, WfState s -> rights_ok s -> move_ok s mv ->
+  exists s', apply_move s (enc_move s mv) = Some s' /\ WfState s' /\
+             pos_eq (abs s') (apply_sat (abs s) mv).
+Proof.
+  intros s mv Hwf Hro [k Hok].
+  destruct (move_shape s mv k Hok) as [[-> Hep] | [[-> [Hep Hca]] | [Hep Hca]]].
+  - exact (refines_ep s mv Hwf Hro Hok Hep).
+  - exact (refines_castle s mv Hwf Hro Hok Hca).
+  - exact (refines_plain s mv k Hwf Hro Hok Hep Hca).
+Qed.
+
+Theorem apply_refines : forall s mv, WfState s -> clock_ok s -> rights_ok s -> move_ok s mv ->
+  exists s', apply_move s (enc_move s mv) = Some s' /\ WfState s' /\
+             pos_eq (abs s') (Rules.apply (abs s) mv).
+Proof.
+  intros s mv Hwf [Hh Hfl] Hro Hok.
+  destruct (apply_refines_sat s mv Hwf Hro Hok) as (s' & Ha & Hw' & He).
+  exists s'. split; [exact Ha|]. split; [exact Hw'|].
+  apply (pos_eq_trans _ _ _ He). apply apply_sat_eq; assumption.
+Qed.
+
+(* apply_move is a function: the successor is unique *)
+Corollary apply_refines_unique : forall s mv s', WfState s -> rights_ok s -> move_ok s mv ->
+  apply_move s (enc_move s mv) = Some s' ->
+  WfState s' /\ pos_eq (abs s') (apply_sat (abs s) mv).
+Proof.
+  intros s mv s' Hwf Hro Hok Ha.
+  destruct (apply_refines_sat s mv Hwf Hro Hok) as (s'' & Ha' & Hw' & He).
+  rewrite Ha in Ha'. injection Ha' as <-. split; assumption.
+Qed.
+
+(* the packed move reads back as the rules-level move *)
+Theorem absm_enc_move : forall s mv, move_ok s mv -> absm (enc_move s mv) = mv.
+Proof.
+  intros s mv [k Hok].
+  pose proof Hok as (Hf & Hf64 & Ht64 & Hne & Hown & Hpro & Hpawn & Hking).
+  unfold absm.
+  destruct (move_shape s mv k Hok) as [[-> Hep] | [[-> [Hep Hca]] | [Hep Hca]]].
+  - rewrite (enc_ep s mv Hok Hep).
+    destruct (en_passant_fields (st_turn s) (mv_from mv) (mv_to mv) Hf64 Ht64)
+      as (_ & _ & E3 & E4 & _ & E6 & _).
+    rewrite E3, E4, E6.
+    unfold ep_flag in Hep. change (piece_eqb Pawn Pawn) with true in Hep.
+    cbn [andb] in Hep. apply andb_true_iff in Hep. destruct Hep as [Hfl Hem].
+    apply negb_true_iff in Hfl. apply Z.eqb_neq in Hfl.
+    assert (Hfl' : sfile (mv_to mv) <> sfile (mv_from mv)) by (intros E; apply Hfl; symmetry; exact E).
+    destruct (proj2 (Hpawn eq_refl) Hfl' Hem) as (_ & _ & _ & Hnp).
+    rewrite <- Hnp. destruct mv; reflexivity.
+  - destruct (enc_castle s mv Hok Hca) as (Henc & Hfo & Hto). rewrite Henc.
+    destruct (castle_fields (st_turn s) (sfile (mv_to mv) =? 6)%Z) as (_ & _ & E3 & E4 & _ & E6 & _).
+    rewrite E3, E4, E6, <- Hfo, <- Hto.
+    assert (Hnp : mv_promo mv = None).
+    { destruct (mv_promo mv) as [pr|]; [|reflexivity]. destruct Hpro as [Hpro _]. discriminate Hpro. }
+    rewrite <- Hnp. destruct mv; reflexivity.
+  - rewrite (enc_plain s mv k Hok Hep Hca).
+    assert (Hpn : mv_promo mv <> Some PNone).
+    { destruct (mv_promo mv) as [pr|]; [|discriminate]. intros E. injection E as ->.
+      destruct Hpro as [_ Hpro]. discriminate Hpro. }
+    destruct (roundtrip (st_turn s) k (mv_from mv) (mv_to mv) (kind_on (st_board s) (mv_to mv))
+                (mv_promo mv) (move_ok_kind _ _ _ Hok) Hf64 Ht64 (kind_on_not_none _ _) Hpn)
+      as (_ & _ & E3 & E4 & _ & E6 & _).
+    rewrite E3, E4, E6. destruct mv; reflexivity.
+Qed.
+
+(* the rights invariant is part of "legal position" *)
+Definition ep_clause (p : pos) : bool :=
+  match p_ep p with
+  | None => true
+  | Some t =>
+      let c := p_turn p in
+      (srank t =? (if is_white c then 5 else 2))%Z
+      && empty_at p t
+      && empty_at p (sq_of (sfile t) (srank t + fwd c))
+      && has p (sq_of (sfile t) (srank t - fwd c)) (opp c) Pawn
+  end.
+Definition rights_clause (p : pos) : bool :=
+  forallb (fun c => forallb (fun side =>
+        negb (p_right p c side) || (has p (king_home c) c King && has p (rook_home c side) c Rook)) [true; false])
+       [White; Black].
+Definition pawns_clause (p : pos) : bool :=
+  forallb (fun s => negb ((srank s =? 0)%Z || (srank s =? 7)%Z) || negb (has p s White Pawn || has p s Black Pawn)) all_squares.
+
+Lemma legal_pos_unfold : forall p,
+  ((count_pieces p White King =? 1)%nat && (count_pieces p Black King =? 1)%nat
+  && negb (king_attacked p (opp (p_turn p)))
+  && pawns_clause p && rights_clause p && ep_clause p) = legal_pos p.
+Proof. intros p. exact (eq_refl _). Qed.
+
+Lemma legal_pos_parts : forall p, legal_pos p = true ->
+  (count_pieces p White King = 1)%nat /\ (count_pieces p Black King = 1)%nat /\
+  king_attacked p (opp (p_turn p)) = false /\ pawns_clause p = true /\ rights_clause p = true /\
+  ep_clause p = true.
+Proof.
+  intros p H. rewrite <- legal_pos_unfold in H. rewrite !andb_true_iff in H.
+  destruct H as [[[[[H1 H2] H3] H4] H5] H6].
+  split; [apply Nat.eqb_eq; exact H1|].
+  split; [apply Nat.eqb_eq; exact H2|].
+  split; [apply negb_true_iff; exact H3|].
+  split; [exact H4|]. split; [exact H5|exact H6].
+Qed.
+
+Lemma legal_pos_rights : forall p, legal_pos p = true -> forall c side, p_right p c side = true ->
+  has p (king_home c) c King = true /\ has p (rook_home c side) c Rook = true.
+Proof.
+  intros p H c side Hc. destruct (legal_pos_parts p H) as (_ & _ & _ & _ & Hr & _).
+  unfold rights_clause in Hr. rewrite forallb_forall in Hr.
+  assert (Hc1 : In c [White; Black]) by (destruct c; cbn [In]; auto).
+  pose proof (Hr c Hc1) as Hr1. cbv beta in Hr1. rewrite forallb_forall in Hr1.
+  assert (Hs1 : In side [true; false]) by (destruct side; cbn [In]; auto).
+  pose proof (Hr1 side Hs1) as Hx. cbv beta in Hx.
+  rewrite Hc in Hx. cbn [negb orb] in Hx. apply andb_true_iff. exact Hx.
+Qed.
+
+Theorem legal_pos_rights_ok : forall s, LegalPos s -> rights_ok s.
+Proof.
+  intros s H. unfold LegalPos, legal_posb in H. apply andb_true_iff in H. destruct H as [_ H].
+  intros c side Hc. exact (legal_pos_rights (abs s) H c side Hc).
+Qed.
+
